@@ -127,6 +127,7 @@ func rulesC20(p *Prog, r *Report) {
 	r.Explanation = "Decides the structural necessary conditions of the genesis round trip, per module: (R20.1) every key prefix the module's keeper writes anywhere is either read under ExportGenesis and written under InitGenesis, or re-derived (written) under InitGenesis; a prefix that is neither exported nor re-derived is state that does not survive the round trip; (R20.2) every field of the module's GenesisState that ExportGenesis fills is read by InitGenesis, and every field InitGenesis reads is filled by ExportGenesis; (R20.3) every bulk reader used by export decodes what it appends (the appended element is the target of an Unmarshal of the iterator value). It does not decide behavioural equality after the round trip, nor that values restored are the values exported beyond the field/prefix agreement."
 	r.Assumptions = []string{"key prefixes are the package-level []byte variables of x/*/types; two different variables are different prefixes", "bank/auth state is exported by the SDK modules"}
 	keyArgAgreement(p, r, "R20.8", 20)
+	rekeyRule(p, r, "R20.10", 1)
 
 	gens := p.Genesis()
 	type modGen struct{ init, export []*ssa.Function }
@@ -159,6 +160,7 @@ func rulesC20(p *Prog, r *Report) {
 	r.Rule("R20.5", "a genesis id-counter field is restored through the setter of the same kind", 2)
 	r.Rule("R20.6", "modules whose InitGenesis reads another module's state are initialised after it", 2)
 	r.Rule("R20.7", "genesis fields are filled from the reader of the same name and restored through parameters of the same name", 25)
+	r.Rule("R20.9", "an export reader is not skipped depending on what another export reader returned", 2)
 	initOrder := p.initGenesisOrder()
 	orderIdx := map[string]int{}
 	for i, n := range initOrder {
@@ -319,6 +321,7 @@ func rulesC20(p *Prog, r *Report) {
 
 		// R20.7 name agreement on both sides of the round trip
 		genesisNameAgreement(p, r, "R20.7", m, exportReach, initReach)
+		exportReaderUnconditional(p, r, "R20.9", m, exportReach)
 
 		// R20.6 init order
 		if mn := modName[m]; mn != "" {
